@@ -1,5 +1,5 @@
 """C04 Every uplink follows the WARP link state machine; no fabricated frames."""
-from mirlib import describe_place, AnchorMissing, describe_operand, dom_guards, guards, _suffix_match
+from mirlib import op_place, describe_place, AnchorMissing, describe_operand, dom_guards, guards, _suffix_match
 from rules import uplinks
 from rules.common import named_argument_rule, aggregates, callers_by_name, owner_def, where
 
@@ -245,4 +245,41 @@ def run(ctx):
 
     with ctx.rule("C04.R10", "T1+T7", "every frame is addressed with the lane it belongs to (sender state set per frame)", floor=15) as r:
         uplinks.frame_lane_name(r, ctx)
+
+    with ctx.rule("C04.R11", "T3", "the link relation (which remote is linked to which lane) is changed in both of its indexes and read with the ids in their roles", floor=8) as r:
+        LK = "links::Links"
+        ins = ctx.saw(rt.fn(name="insert", self_adt=LK))
+        fw = [c for c in ins.calls if c.name == "entry" and ".forward" in describe_operand(ins, c.args[0])]
+        bw = [c for c in ins.calls if c.name == "entry" and ".backwards" in describe_operand(ins, c.args[0])]
+        r.check(len(fw) == 1 and len(bw) == 1 and ins.must_pass([0], {bw[0].block})[0] and ins.must_pass([0], {fw[0].block})[0], "insert/both-indexes", where(ins), "insert records the link in forward and backwards on every path",
+                "insert can record a link in one index only: is_linked and the prune logic then disagree about it")
+        if fw and bw:
+            r.check(describe_operand(ins, fw[0].args[1]) == "lane_id" and describe_operand(ins, bw[0].args[1]) == "remote_id", "insert/index-keys", where(ins), "forward is keyed by the lane, backwards by the remote",
+                    "forward is keyed by %s, backwards by %s" % (describe_operand(ins, fw[0].args[1]), describe_operand(ins, bw[0].args[1])))
+        rem = ctx.saw(rt.fn(name="remove", self_adt=LK))
+        fwr = [c for c in rem.calls if c.name == "remove" and "LaneLinks" in c.defpath]
+        bwr = [c for c in rem.calls if c.name == "remove" and "HashSet" in c.defpath]
+        fe = [c for c in rem.calls if c.name == "entry" and ".forward" in describe_operand(rem, c.args[0])]
+        be = [c for c in rem.calls if c.name == "entry" and ".backwards" in describe_operand(rem, c.args[0])]
+        r.check(len(fwr) == 1 and len(fe) == 1 and describe_operand(rem, fe[0].args[1]) == "lane_id" and "remote_id" in describe_operand(rem, fwr[0].args[1]) and any(d.startswith("disc(entry(self.forward") and l == "Occupied" for d, l, _ in dom_guards(rem, fwr[0].block)) and len([d for d, l, _ in dom_guards(rem, fwr[0].block)]) == 1,
+                "remove/forward-updated", where(rem), "remove takes the remote out of the lane's forward entry whenever that entry exists", "remove does not (always) delete the remote from forward[lane]: the unlinked remote keeps receiving the lane's events")
+        r.check(len(bwr) == 1 and len(be) == 1 and describe_operand(rem, be[0].args[1]) == "remote_id" and "lane_id" in describe_operand(rem, bwr[0].args[1]) and rem.must_pass([0], {be[0].block})[0],
+                "remove/backwards-updated", where(rem), "remove takes the lane out of the remote's backwards entry whenever that entry exists", "remove does not (always) delete the lane from backwards[remote]")
+        rr = ctx.saw(rt.fn(name="remove_remote", self_adt=LK))
+        bwx = [c for c in rr.calls if c.name == "remove" and "HashMap" in c.defpath and ".backwards" in describe_operand(rr, c.args[0])]
+        r.check(len(bwx) == 1 and (bwx[0].block == 0 or rr.must_pass([0], {bwx[0].block})[0]) and rr.root_name(rr.resolve(op_place(bwx[0].args[1]))) in ("id", "remote_id") if bwx and op_place(bwx[0].args[1]) else False,
+                "remove_remote/backwards-removed", where(rr), "remove_remote deletes the remote's backwards entry")
+        llr = [c for b in [rr] + list(rt.closures_of(rr.defpath)) for c in b.calls if c.name == "remove" and "LaneLinks" in c.defpath]
+        r.check(len(llr) >= 1, "remove_remote/forward-updated", where(rr), "remove_remote takes the remote out of the forward entry of every lane it was linked to", "remove_remote leaves the remote in the lanes' forward entries: a detached remote is still broadcast to")
+        rl = ctx.saw(rt.fn(name="remove_lane", self_adt=LK))
+        bodies = [rl] + list(rt.closures_of(rl.defpath))
+        bwl = [c for b in bodies for c in b.calls if c.name in ("remove", "get_mut", "entry") and any("backwards" in describe_operand(b, a) for a in c.args[:1])]
+        r.check(bool(bwl), "remove_lane/backwards-updated", where(rl), "remove_lane also takes the lane out of its remotes' backwards entries", "remove_lane leaves the lane in the remotes' backwards entries")
+        il = ctx.saw(rt.fn(name="is_linked", self_adt=LK))
+        g = [c for c in il.calls if c.name == "get"]
+        cn = [c for b in [il] + list(rt.closures_of(il.defpath)) for c in b.calls if c.name == "contains"]
+        r.check(len(g) == 1 and ".forward" in describe_operand(il, g[0].args[0]) and "lane_id" in describe_operand(il, g[0].args[1]) and len(cn) == 1, "is_linked/forward[lane].contains(remote)", where(il),
+                "is_linked(remote, lane) looks the remote up in the lane's forward entry", "is_linked no longer reads forward[lane_id]")
+        lf = ctx.saw(rt.fn(name="linked_from", self_adt=LK))
+        r.check(any(c.name == "get" and ".forward" in describe_operand(lf, c.args[0]) for c in lf.calls), "linked_from/reads-forward", where(lf), "the broadcast targets of a lane come from the forward index")
 
